@@ -7,6 +7,7 @@
 // raw pointers collected from the leaf arrays -- FEAT's own copy/set_vec are never used for the oracle.
 #include "c04_common.hpp"
 #include <map>
+#include <sstream>
 
 using namespace c04;
 
@@ -647,16 +648,40 @@ namespace
     }
   }
 
+  /// extrema over the stored entries of the model
+  template<typename DT>
+  void model_extrema(const std::map<Index, std::vector<DT>>& model, DT& mx, DT& mn, DT& mxa, DT& mna)
+  {
+    mx = mn = mxa = mna = DT(0); bool first = true;
+    for(auto& m : model) for(DT x : m.second)
+    {
+      DT ax = x < DT(0) ? -x : x;
+      if(first) { mx = mn = x; mxa = mna = ax; first = false; }
+      else { if(x > mx) mx = x; if(x < mn) mn = x; if(ax > mxa) mxa = ax; if(ax < mna) mna = ax; }
+    }
+  }
+
+  // observations that are performed FIRST on a freshly replayed object (before any other accessor could have sorted /
+  // de-duplicated it): the lazily maintained representation must be invisible through every one of them
+  enum SObs { O_MAX = 0, O_MIN, O_MAXABS, O_MINABS, O_USED, O_INDICES, O_ELEMENTS, O_SORT, O_CLONE, O_EQ, O_WRITE, O_STREAM, O_FORMAT, O_MOVE, O_GET0 /* + i */ };
+  const char* sobs_name[O_GET0] = {"max_element", "min_element", "max_abs_element", "min_abs_element", "used_elements", "indices()", "elements()", "sort()",
+    "clone(Deep)", "operator==", "write_out/read_from(binary)", "operator<<", "format", "move"};
+
   template<typename DT, int BS>
   void run_sparse(verif::Ctx& c, const std::string& kname)
   {
     typedef SparseSel<DT, BS> S;
     typedef typename S::SV SV;
-    const int nmax = c.thorough ? 6 : 5;
+    typedef std::map<Index, std::vector<DT>> Model;
+    // rich alphabet {set(i), S = used_elements(), R = the four reductions} with first-observation replays up to nrich;
+    // one more size with the plain alphabet {set(i), S} (longer histories, more reallocations)
+    const int nrich = c.thorough ? 5 : 4;
+    const int nmax = nrich + 1;
     for(int n = 0; n <= nmax; ++n)
     {
-      const int base = n + 1;                 // digits 0..n-1 = set(i), digit n = force sort
-      const int maxlen = n == 0 ? 1 : n + 2;
+      const bool rich = (n <= nrich);
+      const int base = rich ? n + 2 : n + 1;   // digits 0..n-1 = set(i), digit n = S (force sort), digit n+1 = R (reductions)
+      const int maxlen = n == 0 ? 2 : n + 2;
       for(int len = 0; len <= maxlen; ++len)
       {
         long total = 1; for(int k = 0; k < len; ++k) total *= base;
@@ -667,33 +692,57 @@ namespace
           { long t = code; for(int k = 0; k < len; ++k) { seq[size_t(k)] = int(t % base); t /= base; } }
           c.desc([&]{
             std::string d = kname + " size=" + std::to_string(n) + " history=";
-            for(int x : seq) d += (x == n ? std::string("S") : "set(" + std::to_string(x) + ")") + " ";
+            for(int x : seq) d += (x == n ? std::string("S") : x == n + 1 ? std::string("R") : "set(" + std::to_string(x) + ")") + " ";
             return d; });
           const size_t pool0 = MemoryPool::_pool.size();
+          bool realloc_seen = false;
+          std::vector<DT> raw_vals; std::vector<Index> raw_idx;
+          // replays the history on sv; intermediate observations are part of the history and are checked when 'checked'
+          auto replay = [&](SV& sv, Model& model, bool checked)
           {
-            SV sv{Index(n)};
-            std::map<Index, std::vector<DT>> model;
-            std::vector<DT> raw_vals; std::vector<Index> raw_idx;
-            int step = 0; bool realloc_seen = false;
+            int step = 0;
             for(int x : seq)
             {
               if(x == n)
               {
                 Index ue = sv.used_elements();   // forces the lazy sort
-                c.check(ue == Index(model.size()), kname + " history: used_elements after sort", "wrong number of distinct entries after an intermediate sort");
+                if(checked) c.check(ue == Index(model.size()), kname + " history: used_elements after sort", "wrong number of distinct entries after an intermediate sort");
+              }
+              else if(x == n + 1)
+              {
+                if(!model.empty())
+                {
+                  DT mx, mn, mxa, mna; model_extrema(model, mx, mn, mxa, mna);
+                  // the order of the four calls rotates with the step so that each of them is the first one somewhere
+                  for(int q = 0; q < 4; ++q)
+                  {
+                    const int w = (q + step) % 4;
+                    DT got = w == 0 ? sv.max_element() : w == 1 ? sv.min_element() : w == 2 ? sv.max_abs_element() : sv.min_abs_element();
+                    DT want = w == 0 ? mx : w == 1 ? mn : w == 2 ? mxa : mna;
+                    if(checked) c.check(got == want, kname + " history: " + sobs_name[w] + " inside a history", [&]{ return "got " + fmt(got) + " expected " + fmt(want) + " (extremum over the stored entries, last write wins)"; });
+                  }
+                }
               }
               else
               {
                 DT v[BS > 0 ? BS : 1];
-                for(int j = 0; j < BS; ++j) v[j] = DT(((step + j) % 2 ? -1 : 1) * (LD(step + 1) / 4 + LD(8 * j)));
+                for(int j = 0; j < BS; ++j) v[j] = DT(((step + j) % 2 ? -1 : 1) * (LD(1 + (3 * step) % 8) / 4 + LD(8 * j)));   // distinct per step (<= 8 steps), not monotone
                 sv(Index(x), S::mk(v));
                 model[Index(x)] = std::vector<DT>(v, v + BS);
-                for(int j = 0; j < BS; ++j) raw_vals.push_back(v[j]);
-                raw_idx.push_back(Index(x));
-                if(sv.allocated_elements() > Index(n)) realloc_seen = true;
+                if(checked)
+                {
+                  for(int j = 0; j < BS; ++j) raw_vals.push_back(v[j]);
+                  raw_idx.push_back(Index(x));
+                  if(sv.allocated_elements() > Index(n)) realloc_seen = true;
+                }
               }
               ++step;
             }
+          };
+          {
+            SV sv{Index(n)};
+            Model model;
+            replay(sv, model, true);
             if(realloc_seen) c.count("sparse_histories_with_reallocation");
             if(raw_idx.size() > model.size()) c.count("sparse_histories_with_duplicates");
             check_sparse_state<DT, BS>(c, kname, "history", sv, Index(n), model);
@@ -713,15 +762,131 @@ namespace
             // format sets every stored entry
             {
               sv.format(DT(2.5));
-              std::map<Index, std::vector<DT>> m2;
+              Model m2;
               for(auto& m : model) m2[m.first] = std::vector<DT>(size_t(BS), DT(2.5));
               check_sparse_state<DT, BS>(c, kname, "format", sv, Index(n), m2);
             }
           }
+          // ---- first observations: fresh object per observation, the observation is the first call after the history
+          if(rich)
+          {
+            for(int ob = 0; ob < O_GET0 + n; ++ob)
+            {
+              SV sv{Index(n)};
+              Model model;
+              replay(sv, model, false);
+              const SV& csv = sv;
+              const std::string on = ob < O_GET0 ? std::string(sobs_name[ob]) : std::string("operator()(i)");
+              const std::string key = kname + " first observation " + on;
+              bool post_check = true;
+              switch(ob < O_GET0 ? ob : int(O_GET0))
+              {
+              case O_MAX: case O_MIN: case O_MAXABS: case O_MINABS:
+              {
+                if(model.empty()) break;    // kernels read x[0]
+                DT mx, mn, mxa, mna; model_extrema(model, mx, mn, mxa, mna);
+                DT got = ob == O_MAX ? csv.max_element() : ob == O_MIN ? csv.min_element() : ob == O_MAXABS ? csv.max_abs_element() : csv.min_abs_element();
+                DT want = ob == O_MAX ? mx : ob == O_MIN ? mn : ob == O_MAXABS ? mxa : mna;
+                c.check(got == want, key, [&]{ return "got " + fmt(got) + " expected " + fmt(want) + " (extremum over the stored entries, last write wins; no accessor was called before)"; });
+                break;
+              }
+              case O_USED:
+                c.check(csv.used_elements() == Index(model.size()), key, [&]{ return "used_elements()=" + std::to_string(csv.used_elements()) + " expected " + std::to_string(model.size()); });
+                break;
+              case O_INDICES: case O_ELEMENTS:
+              {
+                if(model.empty()) break;
+                const Index* ix = nullptr; const DT* ev = nullptr;
+                if(ob == O_INDICES) { ix = csv.indices(); ev = csv.template elements<Perspective::pod>(); }
+                else { ev = csv.template elements<Perspective::pod>(); ix = csv.indices(); }
+                size_t k = 0; bool ok = true;
+                for(auto& m : model)
+                {
+                  if(ix[k] != m.first) ok = false;
+                  for(int j = 0; j < BS; ++j) if(!(ev[k * size_t(BS) + size_t(j)] == m.second[size_t(j)])) ok = false;
+                  ++k;
+                }
+                c.check(ok, key, "the arrays handed out are not the sorted, de-duplicated entry list");
+                break;
+              }
+              case O_SORT:
+                sv.sort();
+                c.check(sv._scalar_index.at(1) == Index(model.size()), key, "raw used-element count after sort() differs from the number of distinct indices");
+                break;
+              case O_CLONE:
+              {
+                SV cl = csv.clone(CloneMode::Deep);
+                check_sparse_state<DT, BS>(c, kname, "first observation clone(Deep) [the clone]", cl, Index(n), model);
+                break;
+              }
+              case O_EQ:
+              {
+                SV other{Index(n)};
+                for(auto& m : model) other(m.first, S::mk(m.second.data()));
+                c.check(csv == other, key, "vector does not compare equal to one holding the final entries");
+                // a vector differing in one stored value must not compare equal
+                if(!model.empty())
+                {
+                  SV diff{Index(n)};
+                  bool firstm = true;
+                  for(auto& m : model) { std::vector<DT> t = m.second; if(firstm) { t[0] = t[0] + DT(1); firstm = false; } diff(m.first, S::mk(t.data())); }
+                  c.check(!(csv == diff), key + " (inequality)", "vector compares equal to one with a different entry");
+                }
+                break;
+              }
+              case O_WRITE:
+              {
+                std::stringstream ss;
+                csv.write_out(FileMode::fm_binary, ss);
+                SV rd(FileMode::fm_binary, ss);
+                check_sparse_state<DT, BS>(c, kname, "first observation write_out/read_from(binary) [read back]", rd, Index(n), model);
+                break;
+              }
+              case O_STREAM:
+              {
+                std::ostringstream os; os << csv;
+                std::ostringstream ex; ex << "[";
+                for(Index i = 0; i < Index(n); ++i) { auto it = model.find(i); for(int j = 0; j < BS; ++j) ex << "  " << stringify(it == model.end() ? DT(0) : it->second[size_t(j)]); }
+                ex << "]";
+                c.check(os.str() == ex.str(), key, [&]{ return "printed " + os.str() + " expected " + ex.str(); });
+                break;
+              }
+              case O_FORMAT:
+              {
+                sv.format(DT(2.5));
+                Model m2;
+                for(auto& m : model) m2[m.first] = std::vector<DT>(size_t(BS), DT(2.5));
+                check_sparse_state<DT, BS>(c, kname, "first observation format", sv, Index(n), m2);
+                post_check = false;
+                break;
+              }
+              case O_MOVE:
+              {
+                SV mv(std::move(sv));
+                check_sparse_state<DT, BS>(c, kname, "first observation move [the target]", mv, Index(n), model);
+                post_check = false;
+                break;
+              }
+              default:
+              {
+                const Index i = Index(ob - O_GET0);
+                auto v = csv(i);
+                auto it = model.find(i);
+                bool ok = true;
+                for(int j = 0; j < BS; ++j) if(!(S::comp(v, j) == (it == model.end() ? DT(0) : it->second[size_t(j)]))) ok = false;
+                c.check(ok, key, [&]{ return "entry " + std::to_string(i) + " reads " + fmt(S::comp(v, 0)) + " expected " + fmt(it == model.end() ? DT(0) : it->second[0]); });
+                break;
+              }
+              }
+              // the observation must leave a consistent object behind
+              if(post_check) check_sparse_state<DT, BS>(c, kname, "after first observation " + on, sv, Index(n), model);
+              c.count("sparse_first_observations");
+            }
+          }
           c.check(MemoryPool::_pool.size() == pool0, kname + ": memory pool entries leaked", "MemoryPool has more live allocations after the case than before");
           c.count("sparse_histories");
-          c.outcome(std::string("sparse ") + (len == 0 ? "empty" : "history"));
-          bool any_set = false; for(int x : seq) if(x != n) any_set = true;
+          c.outcome(std::string("sparse ") + (len == 0 ? "empty" : rich ? "history+first-observations" : "history"));
+          bool any_set = false; for(int x : seq) if(x < n) any_set = true;
           if(any_set) c.nontrivial(verif::Hash().str(kname).pod(n).pod(len).pod(code).get());
         }
       }
@@ -814,8 +979,9 @@ int main(int argc, char** argv)
   spec.bounds_quick = "kinds: DV<double|float> (Index), DV<float,u32>, DVB<double,2|3>, DVB<float,2>, Tuple<DV,DVB2><double|float>, Power<DV,2|3><double>, Power<DVB2,2><float>, Tuple<Power<DV,2>,DV><double>; "
     "DV length 0..20, DVB blocks 0..7, power sub-size 0..6, 10 tuple shapes; 32 operations; all set partitions of 2/3 operands x 2-4 realisations; "
     "value sets dyadic, dyadic-rotated, dyadic+zeros, spread 2^+-26, rounding, all sign masks for flat length <= 6, all (rank permutation x sign mask) for flat length <= 5 in the min/max operations; 9 scalars; "
-    "sparse vectors (SparseVector<double|float>, SparseVectorBlocked<double,2>, <float,3>): size 0..5, all histories over {set(i), sort} up to length size+2";
-  spec.bounds_thorough = "as quick with DV length 0..36, DVB blocks 0..12, sub-size 0..9, 14 tuple shapes, sign masks for flat length <= 8, rank permutations for flat length <= 6, sparse size 0..6 (histories up to length 8)";
+    "sparse vectors (SparseVector<double|float>, SparseVectorBlocked<double,2>, <float,3>): size 0..4 all histories over {set(i), S=used_elements, R=four reductions} up to length size+2, each followed on a FRESH replay by every "
+    "first observation (4 reductions, used_elements, indices, elements, sort, clone, ==, write/read, <<, format, move, operator()(i) for every i); size 5: all histories over {set(i), S} up to length 7";
+  spec.bounds_thorough = "as quick with DV length 0..36, DVB blocks 0..12, sub-size 0..9, 14 tuple shapes, sign masks for flat length <= 8, rank permutations for flat length <= 6, sparse rich histories for size 0..5, plain histories for size 6 (length 8)";
   spec.assumptions = {
     "generic backend (no MKL/CUDA in the build), x86-64 SSE arithmetic without FMA contraction: single element-wise operations are IEEE and compared with ==",
     "== is numeric equality (-0 == +0): the r==x branch of axpy yields r*(1+a) = -0 where r+a*r = +0",
